@@ -31,7 +31,8 @@ pub struct Checkpoint {
         #[verifier::external_body] pub fn save(&mut self, Tracked(w): Tracked<&mut World>) -> (r: Result<(), MonorailError>)
             ensures *final(self) == *old(self), r is Ok ==> final(w).cp_file == Some(old(self).stored()), r is Err ==> final(w).cp_file == old(w).cp_file { unimplemented!() }
     }
-    impl Default for Checkpoint { #[verifier::external_body] fn default() -> Self { unimplemented!() } }
+    // #[derive(Default)]: empty id, no pending map
+    impl Default for Checkpoint { #[verifier::external_body] fn default() -> (r: Self) ensures r.id@ == Seq::<char>::empty(), r.pending is None { unimplemented!() } }
     pub struct Table { pub x: u8 }
     impl Table {
         #[verifier::external_body] pub fn new(p: &path::PathBuf) -> (r: Result<Table, MonorailError>) { unimplemented!() }
@@ -43,10 +44,18 @@ pub struct Checkpoint {
     }
 }
 pub uninterp spec fn cp_path() -> Seq<char>;
+pub open spec fn change_names(v: Seq<Change>) -> Seq<Seq<char>> { Seq::new(v.len(), |i: int| v[i].name@) }
+pub open spec fn has_name(s: Seq<Seq<char>>, p: Seq<char>) -> bool { exists|i: int| 0 <= i < s.len() && #[trigger] s[i] == p }
+// C07: the pending map records, for each of the given paths, the checksum of what is there now
+pub open spec fn covers(pending: Option<HashMap<String, String>>, ps: Seq<Seq<char>>, work: Seq<char>) -> bool {
+    forall|p: Seq<char>| #![trigger has_name(ps, p)] has_name(ps, p) ==> (pending matches Some(m) && m@.dom().contains(p) && m@[p]@ == file::sha_at(path_join(work, p)))
+}
 pub mod file {
     use vstd::prelude::*;
     use super::*;
-    #[verifier::external_body] pub async fn get_file_checksum(p: &path::PathBuf) -> (r: Result<String, MonorailError>) { unimplemented!() }
+    // the SHA-256 (hex) of what is at the path now; the empty string when there is nothing (ASSUMED: core/file.rs, not verified here)
+    pub uninterp spec fn sha_at(full: Seq<char>) -> Seq<char>;
+    #[verifier::external_body] pub async fn get_file_checksum(p: &path::PathBuf) -> (r: Result<String, MonorailError>) ensures r matches Ok(s) ==> s@ == sha_at(p@) { unimplemented!() }
 }
 pub mod git {
     use vstd::prelude::*;
@@ -56,7 +65,11 @@ pub mod git {
     // ASSUMED: git is not modelled; `rev-parse <ref>` is an uninterpreted function of the repository
     #[verifier::external_body] pub async fn git_cmd_rev_parse(git_path: &str, work_path: &path::Path, reference: &str) -> (r: Result<String, MonorailError>)
         ensures r matches Ok(s) ==> s@ == rev_parse(work_path@, reference@) { unimplemented!() }
-    #[verifier::external_body] pub async fn get_git_all_changes<'a>(o: &'a GitOptions<'a>, c: &'a tracking::Checkpoint, work_path: &path::Path) -> (r: Result<Vec<Change>, MonorailError>) { unimplemented!() }
+    // what get_git_all_changes reports (characterised in unit git: untracked + tracked differences - settled paths); a function of the
+    // repository state, the interval, the checkpoint's commit and its pending map
+    pub uninterp spec fn all_changes(work: Seq<char>, begin: Option<&str>, end: Option<&str>, cp_id: Seq<char>, pending: Option<HashMap<String, String>>) -> Seq<Seq<char>>;
+    #[verifier::external_body] pub async fn get_git_all_changes<'a>(o: &'a GitOptions<'a>, c: &'a tracking::Checkpoint, work_path: &path::Path) -> (r: Result<Vec<Change>, MonorailError>)
+        ensures r matches Ok(v) ==> change_names(v@) == all_changes(work_path@, o.begin, o.end, c.id@, c.pending) { unimplemented!() }
 }
 //!type src/app/checkpoint.rs CheckpointUpdateInput
 pub struct CheckpointUpdateInput<'a> {
@@ -81,7 +94,7 @@ pub struct CheckpointDeleteOutput {
 }
 //!end
 
-//!fn src/app/checkpoint.rs checkpoint_update_git rules=R1,R10,R16 props=C19
+//!fn src/app/checkpoint.rs checkpoint_update_git rules=R1,R10,R16 props=C19,C07
 async fn checkpoint_update_git<'a>(
     cfg: &core::Config,
     input: &CheckpointUpdateInput<'a>,
@@ -94,6 +107,9 @@ async fn checkpoint_update_git<'a>(
 @        res matches Ok(o) ==> o.checkpoint.id@ == (match input.id { Some(id) => id@, None => git::rev_parse(work_path@, "HEAD"@) }), // [C19]
 @        // a failed update leaves the store as it was
 @        res is Err ==> final(w).cp_file == old(w).cp_file, // [C19]
+@        // C07: with --pending, every path that is changed right now (against HEAD, plus untracked) is recorded with the checksum of its
+@        // current content - so that, read back through this checkpoint, none of them counts as changed until its content changes again
+@        (res is Ok && input.pending) ==> covers(res->Ok_0.checkpoint.pending, git::all_changes(work_path@, input.git_opts.begin, input.git_opts.end, Seq::<char>::empty(), None), work_path@), // [C07]
 {
     let tracking = tracking::Table::new(&cfg.get_tracking_path(work_path))?;
     let mut checkpoint = match tracking.open_checkpoint(Tracked(w)) {
@@ -116,14 +132,26 @@ async fn checkpoint_update_git<'a>(
             git::get_git_all_changes(&input.git_opts, &Default::default(), work_path).await?;
         if !pending_changes.is_empty() {
             let mut pending⟦: HashMap<String, String>⟧ = HashMap::new();
+@            let ghost pc = change_names(pending_changes@);
             for change in ⟦itc: ⟧pending_changes.iter()
 @                invariant w.cp_file == old(w).cp_file,
+@                    itc.seq().len() == pending_changes@.len(), forall|q: int| 0 <= q < itc.seq().len() ==> *itc.seq()[q] == pending_changes@[q], pc == change_names(pending_changes@),
+@                    forall|q: int| 0 <= q < itc.index@ ==> pending@.dom().contains(#[trigger] pc[q]) && pending@[pc[q]]@ == file::sha_at(path_join(work_path@, pc[q])),
             {
+@                let ghost k = itc.index@ as int;
+@                let ghost pm = pending@;
                 let p = work_path.join(&change.name);
 
                 pending.insert(change.name.clone(), file::get_file_checksum(&p).await?);
+@                assert forall|q: int| 0 <= q < k + 1 implies pending@.dom().contains(#[trigger] pc[q]) && pending@[pc[q]]@ == file::sha_at(path_join(work_path@, pc[q])) by {
+@                    if q < k { assert(pm.dom().contains(pc[q])); if pc[q] == pc[k] { } }
+@                }
             }
             checkpoint.pending = Some(pending);
+@            assert(covers(checkpoint.pending, pc, work_path@)) by {
+@                assert forall|p: Seq<char>| #![trigger has_name(pc, p)] has_name(pc, p) implies (checkpoint.pending matches Some(m) && m@.dom().contains(p) && m@[p]@ == file::sha_at(path_join(work_path@, p))) by {
+@                    let i = choose|i: int| 0 <= i < pc.len() && #[trigger] pc[i] == p; }
+@            }
         }
     }
     checkpoint.save(Tracked(w))?;
